@@ -974,7 +974,9 @@ namespace
       case DW_OP_call2:
       case DW_OP_call4:
       case DW_OP_GNU_convert:		// XXX CU-relative offset to DIE
+      case DW_OP_convert:
       case DW_OP_GNU_reinterpret:	// XXX CU-relative offset to DIE
+      case DW_OP_reinterpret:
       case DW_OP_GNU_parameter_ref:	// XXX CU-relative offset to DIE
 	return single_constant ({op->number, &dec_constant_dom});
 
@@ -991,7 +993,9 @@ namespace
 
       case DW_OP_bit_piece:
       case DW_OP_GNU_regval_type:
+      case DW_OP_regval_type:
       case DW_OP_GNU_deref_type:
+      case DW_OP_deref_type:
 	return two_constants ({op->number, &dec_constant_dom},
 			      {op->number2, &dec_constant_dom});
 
@@ -1000,6 +1004,7 @@ namespace
 			      signed_cst (op->number2, &dec_constant_dom));
 
       case DW_OP_GNU_implicit_pointer:
+      case DW_OP_implicit_pointer:
 	{
 	  Dwarf_Die die;
 	  if (dwarf_getlocation_die
@@ -1027,6 +1032,7 @@ namespace
 	}
 
       case DW_OP_GNU_entry_value:
+      case DW_OP_entry_value:
 	{
 	  Dwarf_Attribute attr;
 	  if (dwarf_getlocation_attr
@@ -1038,6 +1044,7 @@ namespace
 	}
 
       case DW_OP_GNU_const_type:
+      case DW_OP_const_type:
 	{
 	  Dwarf_Attribute *attr = const_cast <Dwarf_Attribute *> (&at);
 	  Dwarf_Die die;
